@@ -129,6 +129,8 @@ class Evaluator(object):
             # dynamic typing: an opaque object used at a concrete type (cast is an uninterpreted function)
             f = cx.func("obj_as_" + mangle(t.name), cx.Obj, t.sort(cx))
             return SV(f(sv.e), t)
+        if isinstance(t, TObj) and isinstance(sv.t, TNone):
+            return SV(cx.func("obj_none", cx.Obj)(), t)
         if isinstance(t, TObj) and not isinstance(sv.t, TNone):
             f = cx.func("obj_of_" + mangle(sv.t.name), sv.t.sort(cx), cx.Obj)
             return SV(f(sv.e), t)
